@@ -22,7 +22,11 @@ Spec == Init /\ [][Next]_vars
 (* C04 *)
 DistancesWellFormed  == l > 0 => WellFormed(cur)
 OnlyRaisesIfOpRaises == l > 0 => RaisesOnlyIfOpRaises(cur)
-RecordedOnce         == (l > 0 /\ ~cur.raised) => cur.cnt = 1
+RecordedOnce         == l > 0 => cur.cnt <= 1
+(* C03 at callback level: the outcome Python takes is reported, and nothing is reported when   *)
+(* the operator raises (no branch is taken)                                                    *)
+EvaluationRecorded        == (l > 0 /\ cur.py \in {"T", "F"}) => cur.cnt = 1
+NothingRecordedIfOpRaises == (l > 0 /\ cur.py = "Raise") => cur.cnt = 0
 (* C01: instrumentation only observes *)
 ObserveOnly == l > 0 => (cur.extra_calls = <<>> /\ cur.consumed <= cur.consumed_orig)
 (* C05 *)
